@@ -1640,6 +1640,153 @@ Proof.
   eapply sgood_applied_nodup. exact Hg.
 Qed.
 
+(* ---------------------------------------------------------------- squash *)
+
+(* registering a commit for a name that is not applied *)
+Lemma new_unapplied_inv : forall K n o t,
+  tinv K t -> t_head t = None -> ~ In n (t_applied t) ->
+  (exists p, parents_of (t_objs t) o = [p]) ->
+  rinvP K (fun t' => t_applied t' = t_applied t) (new_unapplied n o 0 t).
+Proof.
+  intros K n o t H Hh Hn Hp. unfold new_unapplied. cbn [Nat.ltb Nat.leb].
+  set (t' := set_updated _ _).
+  assert (Hpat : forall m, t_patch t' m = if name_eqb n m then Some o else t_patch t m).
+  { intros m. unfold t_patch, t'. tproj. rewrite up_get_set. now destruct (name_eqb n m). }
+  cbn [rinvP]. split; [|split; [exact Hh|reflexivity]].
+  assert (Hoids : toids t' = toids t).
+  { unfold toids. change (t_applied t') with (t_applied t). apply map_ext_in. intros m Hm.
+    unfold toid. rewrite Hpat. rewrite name_eqb_neq; [reflexivity|]. intros ->. contradiction. }
+  destruct H as [X1 X2 X3 X4 X5 X6 ti_has0 ti_single0 ti_chain0 X10]. constructor; try assumption.
+  - intros m Hm. rewrite Hpat. destruct (name_eqb n m); [discriminate|]. now apply ti_has0.
+  - intros m o' Hm. rewrite Hpat in Hm. destruct (name_eqb n m).
+    + injection Hm as <-. exact Hp.
+    + eauto.
+  - change (t_objs t') with (t_objs t). change (t_base_oid t') with (t_base_oid t).
+    rewrite Hoids. exact ti_chain0.
+  - left. exact Hh.
+Qed.
+
+Lemma try_squash_inv : forall K t ps meta msg t1 o,
+  tinv K t -> try_squash t ps meta msg = Some (t1, o) ->
+  tinv K t1 /\ t_head t1 = t_head t /\ t_applied t1 = t_applied t
+  /\ exists p, parents_of (t_objs t1) o = [p].
+Proof.
+  intros K t ps meta msg t1 o H E. unfold try_squash in E.
+  destruct ps as [|b rest]; [discriminate|].
+  destruct (t_patch t b) as [bc|] eqn:Eb; [|discriminate].
+  destruct (squash_tree (t_objs t) t rest (tree_of (t_objs t) bc)) as [tr|]; [|discriminate].
+  unfold put in E. injection E as <- <-.
+  split; [apply tinv_set_objs; [exact H|apply ns_extends_put_plain]|].
+  split; [reflexivity|]. split; [reflexivity|].
+  destruct (ti_single K t H b bc Eb) as [p Hp]. exists p.
+  cbn [t_objs set_objs]. rewrite parents_put_new. exact Hp.
+Qed.
+
+Lemma squash_finish_rinv : forall K newn o to_push sp t,
+  tinv K t -> t_head t = None -> ~ In newn (t_applied t) ->
+  (exists p, parents_of (t_objs t) o = [p]) ->
+  NoDup (t_applied t ++ to_push) -> ~ In newn to_push ->
+  rinv K (squash_finish newn o to_push sp t).
+Proof.
+  intros K newn o to_push sp t H Hh Hn Hp Hnd Hnt. unfold squash_finish, rinv.
+  eapply rinvP_bind; [apply new_unapplied_inv; eassumption|].
+  cbv beta. intros t3 H3 Hh3 Ha3.
+  eapply rinvP_weaken; [|apply push_patches_inv; [exact H3|exact Hh3|]]; [auto|].
+  rewrite Ha3. destruct sp; [|exact Hnd].
+  apply nodup_app in Hnd as (N1 & N2 & N3). apply nodup_app. repeat split.
+  - exact N1.
+  - constructor; assumption.
+  - intros x Hx [<-|Hx']; [contradiction|now apply (N3 x)].
+Qed.
+
+Lemma squash_closure_rinv : forall K ps newn meta msg sp t,
+  tinv K t -> t_head t = None -> NoDup ps ->
+  (In newn (t_applied t) -> In newn ps) ->
+  rinv K (squash_closure ps newn meta msg sp t).
+Proof.
+  intros K ps newn meta msg sp t H Hh Hdps Hnew. unfold squash_closure.
+  pose proof (ti_nodup K t H) as Hnd.
+  set (f := fun n => mem n ps).
+  destruct (try_squash t ps meta msg) as [[t1 o]|] eqn:Et.
+  - destruct (try_squash_inv K _ _ _ _ _ _ H Et) as (H1 & Hh1 & Ha1 & Hp1).
+    rewrite Hh in Hh1.
+    destruct (delete_patches_inv K f t1 H1 Hh1) as (H2 & Hh2 & popped & E1 & E2 & E3 & _).
+    pose proof (delete_patches_objs f t1) as Eo.
+    destruct (delete_patches f t1) as [t2 to_push]. cbn [fst snd] in *.
+    rewrite Ha1 in E1. rewrite E1 in Hnd, Hnew. rewrite Forall_forall in E2.
+    assert (Hnk : ~ In newn (t_applied t2)).
+    { intros Hi. pose proof (E2 _ Hi) as Hf. unfold f in Hf. apply mem_false in Hf. apply Hf, Hnew.
+      apply in_or_app. now left. }
+    assert (Hnp : ~ In newn to_push).
+    { subst to_push. intros Hi. apply filter_In in Hi as [Hi Hf]. apply negb_true_iff in Hf.
+      unfold f in Hf. apply mem_false in Hf. apply Hf, Hnew. apply in_or_app. now right. }
+    apply squash_finish_rinv; [exact H2|exact Hh2|exact Hnk|now rewrite Eo| |exact Hnp].
+    subst to_push. apply (nodup_sub_app _ _ _ _ _ Hnd); [now apply nodup_app in Hnd as [? _]| |apply incl_refl|].
+    + apply nodup_filter. now apply nodup_app in Hnd as [_ [? _]].
+    + intros x Hx. now apply filter_In in Hx as [? _].
+  - destruct (pop_patches_inv K f t H Hh) as (H1 & Hh1 & popped & E1 & E2 & E3 & _).
+    destruct (pop_patches f t) as [t1 to_push]. cbn [fst snd] in *.
+    rewrite E1 in Hnd, Hnew. rewrite Forall_forall in E2.
+    assert (Hkp : forall x, In x (t_applied t1) -> ~ In x ps).
+    { intros x Hx. apply mem_false. exact (E2 x Hx). }
+    unfold rinv. eapply rinvP_bind.
+    + apply push_patches_inv; [exact H1|exact Hh1|]. apply nodup_app. repeat split.
+      * now apply nodup_app in Hnd as [? _].
+      * exact Hdps.
+      * exact Hkp.
+    + cbv beta. intros t2 H2 Hh2 Ha2.
+      destruct (try_squash t2 ps meta msg) as [[t3 o]|] eqn:Et2; [|apply (ti_ext K t2 H2)].
+      destruct (try_squash_inv K _ _ _ _ _ _ H2 Et2) as (H3 & Hh3 & Ha3 & Hp3).
+      rewrite Hh2 in Hh3.
+      destruct (delete_patches_inv K f t3 H3 Hh3) as (H4 & Hh4 & popped' & F1 & F2 & _ & _).
+      pose proof (delete_patches_objs f t3) as Eo.
+      destruct (delete_patches f t3) as [t4 extra]. cbn [fst snd] in *.
+      destruct extra; [|exact I].
+      rewrite Ha3, Ha2 in F1. rewrite Forall_forall in F2.
+      assert (Hsub : forall x, In x (t_applied t4) -> In x (t_applied t1)).
+      { intros x Hx. assert (Hx' : In x (t_applied t1 ++ ps)) by (rewrite F1; apply in_or_app; now left).
+        apply in_app_or in Hx' as [Hx'|Hx']; [exact Hx'|].
+        pose proof (F2 x Hx) as Hf. unfold f in Hf. apply mem_false in Hf. contradiction. }
+      assert (Hnk : ~ In newn (t_applied t4)).
+      { intros Hi. apply Hsub in Hi. apply (Hkp _ Hi). apply Hnew. apply in_or_app. now left. }
+      assert (Hnp : ~ In newn to_push).
+      { subst to_push. intros Hi. apply filter_In in Hi as [Hi Hf]. apply negb_true_iff in Hf.
+        unfold f in Hf. apply mem_false in Hf. apply Hf, Hnew. apply in_or_app. now right. }
+      apply squash_finish_rinv; [exact H4|exact Hh4|exact Hnk|now rewrite Eo| |exact Hnp].
+      subst to_push. apply (nodup_sub_app _ _ _ _ _ Hnd); [apply (ti_nodup K t4 H4)| |exact Hsub|].
+      * apply nodup_filter. now apply nodup_app in Hnd as [_ [? _]].
+      * intros x Hx. now apply filter_In in Hx as [? _].
+Qed.
+
+Lemma squash_exit_fst' : forall (p : world * exitc) (b : bool),
+  fst (let '(w', x) := p in if b then (w', X3) else (w', x)) = fst p.
+Proof. intros [w' x] b. destruct b; reflexivity. Qed.
+
+Lemma step_squash : forall w ranges nm meta msg,
+  Inv w -> CInv w -> CInv (fst (run_squash w ranges nm meta msg)).
+Proof.
+  intros w ranges nm meta msg Hinv Hc. unfold run_squash.
+  destruct (parse_ranges ranges) as [prs|] eqn:Epr; [|exact Hc].
+  destruct (from_str nm) as [newn|]; [|exact Hc].
+  open_cmd Hinv Hc op Eop Hok. cbv zeta.
+  set (s := op_state op) in *.
+  destruct (w_unmerged (op_world op)); [triv Hc Hok|].
+  destruct (negb (head_top_ok op)); [triv Hc Hok|].
+  destruct (resolve_names (view_of s) RCAll prs) as [ps| |] eqn:Er; [|triv Hc Hok|triv Hc Hok].
+  cbn [rres_bind].
+  apply (resolve_names_ok _ _ _ _ (parse_ranges_wf _ _ Epr)) in Er. destruct Er as [Hdps _].
+  destruct (negb (mem newn ps) && _) eqn:Eg; [triv Hc Hok|].
+  destruct (Nat.ltb (length ps) 2); [triv Hc Hok|].
+  rewrite squash_exit_fst'.
+  eapply transact_cinv_rinv; [exact Hok|]. intros t0 H0 Hh0 E0.
+  apply squash_closure_rinv; [exact H0|exact Hh0|exact Hdps|].
+  subst t0. cbn [begin_txn t_applied]. fold s. intros Hi.
+  apply andb_false_iff in Eg as [Eg|Eg].
+  - apply negb_false_iff in Eg. now apply mem_In.
+  - destruct (stack_collides s newn) eqn:Esc; [discriminate|].
+    apply stack_collides_none in Esc. exfalso. apply Esc. unfold all_of. apply in_or_app. now left.
+Qed.
+
 Theorem step_chain : forall lower_s w c,
   in_scope c = true -> Inv w ->
   (forall so s, state_of (w_objs w) so = Some s -> chain_ok (w_objs w) s) ->
@@ -1672,6 +1819,7 @@ Proof.
   - now apply step_log_clear.
   - now apply step_edit.
   - now apply step_rebase.
+  - now apply step_squash.
   - now apply step_inspect.
   - now apply step_git.
   - now apply step_git.
